@@ -73,7 +73,10 @@ class C07(Check):
             cases.append(("extract %s 1" % hexs(data), dict(mode=1, **meta)))
         # compressed contents (oracle only)
         for _ in range(20):
-            ents = [Entry(b"z/%d.txt" % i, b"compress me " * 50, method=r.choice([8, 12]), utf8=True, ext_attr=0o100640 << 16) for i in range(3)]
+            # (every other archive carries the sizes of its entries in ZIP64 records of the local headers, as the crate's
+            # writer does for large_file entries: the streaming extractor takes them from there)
+            z_ = _ % 2 == 1
+            ents = [Entry(b"z/%d.txt" % i, b"compress me " * 50, method=r.choice([8, 12]), utf8=True, ext_attr=0o100640 << 16, z64_local=z_) for i in range(3)]
             data, man = genzip.build(ents)
             meta = dict(names=[e.name.hex() for e in ents], ents=[dict(name=e.name.hex(), content=e.content.hex(), made=e.made_by, attr=e.ext_attr) for e in ents], impl_only=True)
             cases.append(("extract %s 0" % hexs(data), dict(mode=0, **meta)))
